@@ -12,17 +12,104 @@ CRIT = [
     {"max_x_position_list": [12.5, 30.0, 20.0, 30.0], "max_y_position_list": [30.0, 12.5, 20.0, 30.0]},
 ]
 PF = [1.0, 2.0, 0.5]
+# classification2d (ROI-less 2D objects paired by uuid): the critical filter / pass-fail variants are confidence thresholds
+CRIT_2D = [{}, {"confidence_threshold_list": [0.5] * 4}, {"confidence_threshold_list": [0.25, 0.75, 0.5, 0.0]},
+           {"confidence_threshold_list": [0.0] * 4}]
+PF_2D = [None, [0.5] * 4, [0.125] * 4]
+NO_METRIC_KEYS = dict(center_distance_thresholds=None, plane_distance_thresholds=None, iou_2d_thresholds=None, iou_3d_thresholds=None)
+
+
+def is_2d(case):
+    return case["task"] == "classification2d"
+
+
+def model_ops(case):
+    """the calls the Coq state machine knows (add / query); "interp" calls are read-only disturbances in between"""
+    return [o for o in case["ops"] if o[0] != "interp"]
+
+
+def make_mgr(case, tag):
+    """a real manager for the case's task (3D detection / tracking on the bundled fixture as before; classification2d on the fixture
+    with a camera frame; fp_validation without a dataset, whose category names the FP-validation loader rejects)"""
+    task = case["task"]
+    if task == "classification2d":
+        return MC.make_manager(task, "cam_front", tag=tag, min_point_numbers=None, max_x_position=None, max_y_position=None, **NO_METRIC_KEYS)
+    if task == "fp_validation":
+        from perception_eval.config import PerceptionEvaluationConfig
+        from perception_eval.manager import PerceptionEvaluationManager
+
+        cfg = MC.base_config(task, **NO_METRIC_KEYS)
+        return PerceptionEvaluationManager(PerceptionEvaluationConfig(dataset_paths=[], frame_id=case["frame"], result_root_directory=MC.tmp_dir(tag),
+                                                                      evaluation_config_dict=cfg, load_raw_data=False))
+    return MC.make_manager(task, case["frame"], tag=tag)
+
+
+def make_cfgs(mgr, case, c, p):
+    if is_2d(case):
+        from perception_eval.evaluation.result.perception_frame_config import PerceptionPassFailConfig
+
+        return (MC.critical_cfg(mgr, CRIT_2D[c]),
+                PerceptionPassFailConfig(evaluator_config=mgr.evaluator_config, target_labels=list(MC.TARGETS), matching_threshold_list=None,
+                                         confidence_threshold_list=None if PF_2D[p] is None else list(PF_2D[p])))
+    return MC.critical_cfg(mgr, CRIT[c]), MC.passfail_cfg(mgr, PF[p])
+
+
+def cfg_fp(cfg):
+    """everything evaluation reads from a CriticalObjectFilterConfig / PerceptionPassFailConfig"""
+    plain = lambda v: [getattr(x, "value", x) for x in v] if isinstance(v, (list, tuple)) else v
+    out = {"target_labels": plain(cfg.target_labels)}
+    for k in ("max_x_position_list", "max_y_position_list", "max_distance_list", "min_distance_list", "min_point_numbers",
+              "confidence_threshold_list", "target_uuids", "ignore_attributes", "matching_threshold_list"):
+        if hasattr(cfg, k):
+            out[k] = plain(getattr(cfg, k))
+    if hasattr(cfg, "filtering_params"):
+        out["filtering_params"] = {k: plain(v) for k, v in cfg.filtering_params.items()}
+    return out
+
+
+def uuid2d(u):
+    """ground truth g3 and its estimate t3 share the uuid 3 in the 2D rendering (classification pairs by uuid)"""
+    return u[1:] if u and u[0] in "gt" else u
+
+
+def make_obj2d(spec, t):
+    from perception_eval.common.object2d import DynamicObject2D
+    from perception_eval.common.schema import FrameID
+
+    conf = spec.get("conf")
+    return DynamicObject2D(t, FrameID.CAM_FRONT, 1.0 if conf is None else conf, MC.label_of(spec["label"]), None, uuid2d(spec.get("uuid")))
 
 
 def deep_fp(o):
     """every attribute of a DynamicObject that evaluation could change"""
+    if type(o).__name__ == "DynamicObject2D":
+        return [o.uuid, o.semantic_label.label.value, o.semantic_label.name, list(o.semantic_label.attributes), o.semantic_score,
+                None if o.roi is None else [list(o.roi.offset), list(o.roi.size)], o.frame_id.value, o.unix_time,
+                None if o.visibility is None else o.visibility.value]
     st = o.state
     return [o.uuid, o.semantic_label.label.value, o.semantic_label.name, list(o.semantic_label.attributes), o.semantic_score,
             [float(x) for x in st.position], [float(x) for x in st.orientation.q], [float(x) for x in st.size], o.pointcloud_num, o.frame_id.value, o.unix_time]
 
 
+def transforms_fp(fgt):
+    """the frame's transform registry (keys in order, matrix entries) and its raw data: evaluation shares them with the copy it works on"""
+    tf = [[k.src.value, k.dst.value, [float(x) for x in m.matrix.flatten()], [float(x) for x in m.position]] for k, m in fgt.transforms.items()]
+    raw = fgt.raw_data
+    return [tf, None if raw is None else {k: [list(v.shape), [float(x) for x in v.flatten()]] for k, v in raw.items()}]
+
+
 def frame_fp(fgt):
-    return [fgt.unix_time, fgt.frame_name, [deep_fp(o) for o in fgt.objects]]
+    return [fgt.unix_time, fgt.frame_name, [deep_fp(o) for o in fgt.objects], transforms_fp(fgt)]
+
+
+def cls_counts(ms):
+    """per classification score and target label: [num_ground_truth, results, TP, FP]"""
+    return [[[a.num_ground_truth, a.objects_results_num, a.num_tp, a.num_fp] for a in c.accuracies] for c in ms.classification_scores]
+
+
+def trk_counts(ms):
+    """per tracking score and target label: [id_switch, tp, fp, num_ground_truth] (the additive CLEAR counters)"""
+    return [[[int(c.id_switch), float(c.tp), float(c.fp), int(c.num_ground_truth)] for c in t.clears] for t in ms.tracking_scores]
 
 
 def core_fp(r):
@@ -34,6 +121,7 @@ def core_fp(r):
         "fn": [g.uuid for g in pf.fn_objects], "tn": [g.uuid for g in pf.tn_objects],
         "success_fail": [pf.get_num_success(), pf.get_num_fail()],
         "maps": MC.score_fingerprint(r.metrics_score)["maps"], "num_gt": r.metrics_score.num_ground_truth,
+        "cls": [cls_counts(r.metrics_score), [[MC.num(x) for x in c._summarize()] for c in r.metrics_score.classification_scores]],
         "frame_name": r.frame_name, "unix_time": r.unix_time,
     }
 
@@ -53,24 +141,49 @@ class Interner:
         return self.ids[k]
 
 
-def do_add(mgr, dataset, case, op, est_lists):
+def do_add(mgr, dataset, case, op, est_lists, cfg_cache=None, frame=None):
+    """cfg_cache (the long-lived manager only): ONE CriticalObjectFilterConfig per filter variant and ONE PerceptionPassFailConfig per
+    threshold variant are reused for every frame, as a caller does; fresh managers get fresh configuration objects.
+    frame: the ground-truth frame object to hand over (default: the dataset's i-th frame)"""
     _, i, e, c, p = op
     if i >= len(dataset):
         return None
     fr = case["frames"][i]
     ests = est_lists[(i, e)]
-    return mgr.add_frame_result(fr["t"], dataset[i], ests, MC.critical_cfg(mgr, CRIT[c]), MC.passfail_cfg(mgr, PF[p]))
+    if cfg_cache is None:
+        cc, pf = make_cfgs(mgr, case, c, p)
+    else:
+        if ("c", c) not in cfg_cache or ("p", p) not in cfg_cache:
+            cc, pf = make_cfgs(mgr, case, c, p)
+            cfg_cache.setdefault(("c", c), cc)
+            cfg_cache.setdefault(("p", p), pf)
+        cc, pf = cfg_cache[("c", c)], cfg_cache[("p", p)]
+    return mgr.add_frame_result(fr["t"], dataset[i] if frame is None else frame, ests, cc, pf)
 
 
-def build_dataset(case):
-    return [MC.make_gt_frame(fr, case["frame"]) for fr in case["frames"]]
+def build_dataset(case, raw=False):
+    if is_2d(case):
+        from perception_eval.common.dataset import FrameGroundTruth
+
+        out = [FrameGroundTruth(fr["t"], str(fr["index"]), [make_obj2d(g, fr["t"]) for g in fr["gts"]]) for fr in case["frames"]]
+    else:
+        out = [MC.make_gt_frame(fr, case["frame"]) for fr in case["frames"]]
+    if raw:     # sensor data as a loader attaches it (load_raw_data=True); evaluation has no business with it
+        import numpy as np
+
+        for k, f in enumerate(out):
+            f.raw_data = {"lidar": np.arange(8, dtype=float).reshape(2, 4) + k}
+    return out
 
 
 def build_estimates(case):
     out = {}
     for i, fr in enumerate(case["frames"]):
         for e, ests in enumerate(fr["est_variants"]):
-            out[(i, e)] = MC.make_estimates({"ests": ests, "ego": fr.get("ego"), "t": fr["t"]}, case["frame"])
+            if is_2d(case):
+                out[(i, e)] = [make_obj2d(x, fr["t"]) for x in ests]
+            else:
+                out[(i, e)] = MC.make_estimates({"ests": ests, "ego": fr.get("ego"), "t": fr["t"]}, case["frame"])
     return out
 
 
@@ -84,14 +197,17 @@ class HistoryCorr(Corr):
 
     def cases(self, tier, rng):
         out = []
-        n = 32 if tier == "quick" else 600
+        n = 36 if tier == "quick" else 675
         for ci in range(n):
-            task = "tracking" if ci % 2 else "detection"
+            # of every 9 histories: 4 detection, 3 tracking, 1 classification2d (uuid pairing, ClassificationMetricsScore), 1 fp_validation
+            task = ("detection", "tracking", "detection", "tracking", "classification2d", "detection", "tracking", "fp_validation", "detection")[ci % 9]
             frame = "map" if (task == "tracking" or ci % 4 == 2) else "base_link"
+            if task == "classification2d":
+                frame = "cam_front"
             K = rng.randint(1, 4)
             frames = []
             for i in range(K):
-                fr = MC.gen_frame(rng, i)
+                fr = MC.gen_frame(rng, i, fp_gt_prob=0.5) if task == "fp_validation" else MC.gen_frame(rng, i)
                 MC.assign_confidences([fr], rng, distinct=(ci % 5 != 0))
                 v0 = fr.pop("ests")
                 v1 = [dict(e) for e in v0[: max(0, len(v0) - 1)]]
@@ -118,6 +234,9 @@ class HistoryCorr(Corr):
                         i = ops[-1][1]  # re-evaluate the same ground-truth frame, usually with another filter
                     ops.append(["add", i, rng.randrange(2), rng.randrange(len(CRIT)), rng.randrange(len(PF))])
             ops = [o for o in ops if o[0] == "query" or o[1] < K]
+            if frame == "map" and K >= 2 and rng.random() < 0.6:
+                # a frame interpolated between dataset frames i and i+1 is requested (and evaluated elsewhere) in the middle of the history
+                ops.insert(rng.randrange(len(ops) + 1), ["interp", rng.randrange(K - 1)])
             ops.append(["query"])
             out.append({"task": task, "frame": frame, "frames": frames, "ops": ops})
         return out
@@ -129,14 +248,33 @@ class HistoryCorr(Corr):
             MC.cleanup_tmp()
 
     def _fresh(self, case):
-        return MC.make_manager(case["task"], case["frame"], tag="fresh"), build_dataset(case), build_estimates(case)
+        return make_mgr(case, "fresh"), build_dataset(case), build_estimates(case)
+
+    @staticmethod
+    def _interp(mgr, dataset, case, op):
+        """ask the long-lived manager for a frame interpolated between dataset frames i and i+1 and evaluate that derived frame on a
+        throw-away manager: neither may write into the dataset frames it was derived from (checked by the dataset fingerprints)"""
+        i = op[1]
+        fr = case["frames"][i]
+        t_mid = fr["t"] + 50000
+        f = mgr.get_ground_truth_now_frame(t_mid, interpolate_ground_truth=True)
+        if f is None or any(f is d for d in dataset):
+            return False
+        tmp = make_mgr(case, "interp")
+        ests = MC.make_estimates({"ests": fr["est_variants"][0], "ego": fr.get("ego"), "t": t_mid}, case["frame"])
+        cc, pf = make_cfgs(tmp, case, 1, 0)
+        tmp.add_frame_result(t_mid, f, ests, cc, pf)
+        return True
 
     def _run(self, case):
         I = {k: Interner() for k in ("frame", "core", "track", "scene", "ests", "cfg")}
-        mgr = MC.make_manager(case["task"], case["frame"], tag="long")
-        dataset = build_dataset(case)
+        mgr = make_mgr(case, "long")
+        dataset = build_dataset(case, raw=True)
         mgr.ground_truth_frames = dataset
         est_lists = build_estimates(case)
+        cfg_cache, cfg_fresh = {}, {}
+        lookup_ok, interp_done = True, 0
+        counts = []         # per add / query: the additive counters of the frame's / the scene's MetricsScore (oracle only)
         ds_before = [I["frame"](frame_fp(f)) for f in dataset]
         ds_identity = [[id(o) for o in f.objects] for f in dataset]
         est_before = {k: [deep_fp(o) for o in v] for k, v in est_lists.items()}
@@ -145,19 +283,32 @@ class HistoryCorr(Corr):
         ops_ids = []
         gt_counts = []      # per call: add -> [total critical GT, per target label]; query -> the scene's [num_gt, per-label counts of the first Map]
         for op in case["ops"]:
-            if op[0] == "query":
+            if op[0] == "interp":
+                interp_done += self._interp(mgr, dataset, case, op)
+            elif op[0] == "query":
                 sc = mgr.get_scene_result()
                 fp_ = MC.score_fingerprint(sc)
+                fp_["cls"] = [cls_counts(sc), [[MC.num(x) for x in c._summarize()] for c in sc.classification_scores]]
                 answers.append([2, I["scene"](fp_)])
                 ops_ids.append(None)
                 gt_counts.append([fp_["num_gt"], fp_["maps"][0]["ngt"] if fp_["maps"] else None,
                                   [c[5] for c in fp_["tracking"][0]["clears"]] if fp_["tracking"] else None])
+                counts.append({"num_gt": sc.num_ground_truth, "trk": trk_counts(sc), "cls": cls_counts(sc)})
             else:
-                r = do_add(mgr, mgr.ground_truth_frames, case, op, est_lists)
+                # the frame is obtained the way a caller obtains it; the configuration objects are reused across frames
+                fobj = mgr.get_ground_truth_now_frame(case["frames"][op[1]]["t"])
+                lookup_ok = lookup_ok and fobj is not None and frame_fp(fobj) == frame_fp(dataset[op[1]])
+                for kk in (("c", op[3]), ("p", op[4])):
+                    if kk not in cfg_cache:
+                        cc_, pf_ = make_cfgs(mgr, case, op[3], op[4])
+                        cfg_fresh[kk] = cfg_fp(cc_ if kk[0] == "c" else pf_)
+                r = do_add(mgr, mgr.ground_truth_frames, case, op, est_lists, cfg_cache, frame=fobj)
                 answers.append([1, I["core"](core_fp(r)), I["track"](track_fp(r))])
                 ops_ids.append((op[1], I["ests"]([op[1], op[2]]), I["cfg"]([op[3], op[4]])))
                 labs = [g.semantic_label.label.value for g in r.frame_ground_truth.objects]
                 gt_counts.append([len(labs), [sum(1 for x in labs if x == t) for t in MC.TARGETS]])
+                counts.append({"num_gt": r.metrics_score.num_ground_truth, "trk": trk_counts(r.metrics_score), "cls": cls_counts(r.metrics_score)})
+        cfgs_changed = sorted(f"{'critical filter' if k[0] == 'c' else 'pass/fail'} config #{k[1]}" for k, v in cfg_cache.items() if cfg_fp(v) != cfg_fresh[k])
         ds_after = [I["frame"](frame_fp(f)) for f in dataset]
         ds_same_objects = ds_identity == [[id(o) for o in f.objects] for f in dataset] and all(a is b for a, b in zip(dataset, mgr.ground_truth_frames))
         ests_unchanged = all(est_before[k] == [deep_fp(o) for o in v] and est_identity[k] == [id(o) for o in v] for k, v in est_lists.items())
@@ -166,7 +317,7 @@ class HistoryCorr(Corr):
         seen_g, seen_t, seen_s = set(), set(), set()
         prev = None
         adds_so_far = []
-        for op, oid in zip(case["ops"], ops_ids):
+        for op, oid in zip(model_ops(case), ops_ids):
             if op[0] == "query":
                 key = tuple(map(tuple, adds_so_far))
                 if key not in seen_s:
@@ -176,7 +327,10 @@ class HistoryCorr(Corr):
                     for a in adds_so_far:
                         r = do_add(m2, d2, case, a, e2)
                         core_ids.append(I["core"](core_fp(r)))
-                    st.append((core_ids, I["scene"](MC.score_fingerprint(m2.get_scene_result()))))
+                    sc2 = m2.get_scene_result()
+                    fp2 = MC.score_fingerprint(sc2)
+                    fp2["cls"] = [cls_counts(sc2), [[MC.num(x) for x in c._summarize()] for c in sc2.classification_scores]]
+                    st.append((core_ids, I["scene"](fp2)))
                 continue
             gkey = tuple(op[1:])
             if gkey not in seen_g:
@@ -186,7 +340,8 @@ class HistoryCorr(Corr):
                 cid = I["core"](core_fp(r))
                 fid = ds_before[op[1]]
                 gt.append((fid, oid[1], oid[2], cid))
-                wt.append((fid, oid[1], oid[2], I["frame"]([d2[op[1]].unix_time, d2[op[1]].frame_name, [deep_fp(o) for o in r.frame_ground_truth.objects]])))
+                wt.append((fid, oid[1], oid[2], I["frame"]([d2[op[1]].unix_time, d2[op[1]].frame_name, [deep_fp(o) for o in r.frame_ground_truth.objects],
+                                                            transforms_fp(r.frame_ground_truth)])))
                 if ("first", gkey) not in seen_t:
                     seen_t.add(("first", gkey))
                     tt.append((0, cid, I["track"](track_fp(r))))
@@ -201,7 +356,8 @@ class HistoryCorr(Corr):
             adds_so_far.append(op)
         return {"ds_before": ds_before, "ds_after": ds_after, "ds_same_objects": bool(ds_same_objects), "ests_unchanged": bool(ests_unchanged),
                 "answers": answers, "ops_ids": ops_ids, "G": gt, "W": wt, "T": tt, "S": st, "gt_counts": gt_counts,
-                "n_results": [len(a) for a in answers]}
+                "n_results": [len(a) for a in answers], "counts": counts, "cfgs_changed": cfgs_changed, "lookup_ok": bool(lookup_ok),
+                "interp_done": interp_done}
 
     @staticmethod
     def _tbl(rows):
@@ -209,7 +365,7 @@ class HistoryCorr(Corr):
 
     def coq_term(self, case, obs):
         ops = []
-        for op, oid in zip(case["ops"], obs["ops_ids"]):
+        for op, oid in zip(model_ops(case), obs["ops_ids"]):
             ops.append("Query" if oid is None else f"(Add {oid[0]} {oid[1]} {oid[2]})")
         st = llit([f"({llit([str(c) for c in cs])}, {s})" for cs, s in obs["S"]])
         ans = llit([llit([str(x) for x in a]) for a in obs["answers"]])
@@ -228,6 +384,13 @@ class HistoryCorr(Corr):
             return f"the loaded dataset was modified by evaluation (ground-truth frames {bad} differ after the call sequence)"
         if not obs["ests_unchanged"]:
             return "the caller's estimate list was modified by add_frame_result"
+        if obs.get("cfgs_changed"):
+            return f"evaluation modified a configuration object the caller reuses across frames: {obs['cfgs_changed']}"
+        if not obs.get("lookup_ok", True):
+            return "get_ground_truth_now_frame(t) did not hand out the dataset frame stamped t"
+        m = self._additive(case, obs)
+        if m:
+            return m
         G = {(a, b, c): v for a, b, c, v in obs["G"]}
         fid = obs["ds_before"]
         T = {(a, b): v for a, b, v in obs["T"]}
@@ -240,14 +403,14 @@ class HistoryCorr(Corr):
             if oid is not None:
                 per_label = [a + b for a, b in zip(per_label, cnt[1])]
                 continue
-            if cnt[0] != sum(per_label):
+            if case["task"] != "fp_validation" and cnt[0] != sum(per_label):      # FP validation has no metrics, hence no count
                 return (f"call {k} (get_scene_result): MetricsScore.num_ground_truth = {cnt[0]} but the frame results added so far hold "
                         f"{sum(per_label)} ground truths of the target labels")
             for what, got in (("detection", cnt[1]), ("tracking", cnt[2])):
                 if got is not None and list(got) != per_label:
                     return (f"call {k} (get_scene_result): per-label {what} ground-truth counts {list(got)} are not the sums {per_label} over the "
                             f"frame results added so far")
-        for k, (op, oid, ans) in enumerate(zip(case["ops"], obs["ops_ids"], obs["answers"])):
+        for k, (op, oid, ans) in enumerate(zip(model_ops(case), obs["ops_ids"], obs["answers"])):
             if oid is None:
                 if ans[1] != S[tuple(cores)]:
                     return f"call {k} (get_scene_result) differs from the scene result of a fresh manager given the same evaluations"
@@ -262,6 +425,30 @@ class HistoryCorr(Corr):
             cores.append(core)
         return None
 
+    @staticmethod
+    def _additive(case, obs):
+        """counting clauses that need no reference run: a frame's MetricsScore.num_ground_truth is the number of its critical ground truths
+        of the target labels; the scene's additive counters (tracking: id switches, TP, FP; classification: ground truths, results, TP,
+        FP; per score and label) are the SUMS of the counters of the frame results held, each frame counted against its predecessor"""
+        if "counts" not in obs:
+            return None
+        has_metrics = case["task"] != "fp_validation"
+        tot_trk, tot_cls = None, None
+        add = lambda tot, new: new if tot is None else [[[a + b for a, b in zip(x, y)] for x, y in zip(s0, s1)] for s0, s1 in zip(tot, new)]
+        for k, (oid, cnt, c) in enumerate(zip(obs["ops_ids"], obs["gt_counts"], obs["counts"])):
+            if oid is not None:
+                if has_metrics and c["num_gt"] != sum(cnt[1]):
+                    return (f"call {k} (add_frame_result): the frame's MetricsScore.num_ground_truth = {c['num_gt']} but the frame holds "
+                            f"{sum(cnt[1])} critical ground truths of the target labels ({cnt[1]})")
+                tot_trk, tot_cls = add(tot_trk, c["trk"]), add(tot_cls, c["cls"])
+                continue
+            for what, names, got, want in (("tracking", "[id_switch, tp, fp, num_ground_truth]", c["trk"], tot_trk),
+                                           ("classification", "[num_ground_truth, results, tp, fp]", c["cls"], tot_cls)):
+                if want is not None and got != want:
+                    return (f"call {k} (get_scene_result): scene {what} counters {names} per score and label {got} are not the sums {want} "
+                            f"of the counters of the frame results added so far")
+        return None
+
     def nontrivial(self, case, obs):
         adds = [o for o in case["ops"] if o[0] == "add"]
         return len(adds) >= 2 and len({o[1] for o in adds}) < len(adds)  # some ground-truth frame evaluated more than once
@@ -272,7 +459,16 @@ class HistoryCorr(Corr):
                 "observed": {"answers": obs["answers"], "dataset_ids_before_after": [obs["ds_before"], obs["ds_after"]]}}
 
     def distribution(self, cases, obs):
-        d = {"tasks": {}, "frames": {}, "ops": 0, "queries": 0, "repeated_frame_evaluations": 0, "same_frame_other_filter": 0}
+        d = {"tasks": {}, "frames": {}, "ops": 0, "queries": 0, "repeated_frame_evaluations": 0, "same_frame_other_filter": 0,
+             "interpolated_frame_requests": sum(o.get("interp_done", 0) for o in obs),
+             "config_objects_reused_across_calls": 0, "scene_tracking_counter_sums_checked": 0, "scene_classification_counter_sums_checked": 0}
+        for c, o in zip(cases, obs):
+            adds = [x for x in c["ops"] if x[0] == "add"]
+            d["config_objects_reused_across_calls"] += (len(adds) - len({x[3] for x in adds})) + (len(adds) - len({x[4] for x in adds}))
+            for oid, cn in zip(o.get("ops_ids", []), o.get("counts", [])):
+                if oid is None and adds:
+                    d["scene_tracking_counter_sums_checked"] += bool(cn["trk"])
+                    d["scene_classification_counter_sums_checked"] += bool(cn["cls"])
         for c in cases:
             d["tasks"][c["task"]] = d["tasks"].get(c["task"], 0) + 1
             d["frames"][c["frame"]] = d["frames"].get(c["frame"], 0) + 1
@@ -303,8 +499,12 @@ class PoolingCorr(Corr):
             K = rng.randint(1, 5)
             frames = [MC.gen_frame(rng, i) for i in range(K)]
             MC.assign_confidences(frames, rng, distinct=(ci % 4 != 0))
+            order2 = list(reversed(range(K)))
+            if K >= 3 and ci % 2:         # any other order must do, not only the reversed one
+                while order2 in (list(range(K)), list(reversed(range(K)))):
+                    rng.shuffle(order2)
             out.append({"frame": "map" if ci % 3 == 0 else "base_link", "frames": frames, "crit": rng.randrange(len(CRIT)), "pf": rng.randrange(len(PF)),
-                        "distinct": ci % 4 != 0})
+                        "distinct": ci % 4 != 0, "order2": order2})
         return out
 
     def run_impl(self, case):
@@ -340,8 +540,8 @@ class PoolingCorr(Corr):
             per_mode[mode] = {"ap": xs_ap, "aph": xs_aph}
         gts = [[g.semantic_label.label.value for g in fr.frame_ground_truth.objects] for fr in mgr.frame_results]
         frame_scores = [MC.score_fingerprint(fr.metrics_score) for fr in mgr.frame_results]
-        # the same frames added in reverse order
-        _, scene_rev = self._scene(case, reversed(range(K)))
+        # the same frames added in another order (reversed, or a random permutation for three and more frames)
+        _, scene_rev = self._scene(case, case.get("order2") or list(reversed(range(K))))
         # a one-frame scene for the first frame
         m1, scene1 = self._scene(case, [0])
         return {"scene": fp, "facts": per_mode, "gts": gts, "frame_num_gt": [f["num_gt"] for f in frame_scores],
@@ -362,6 +562,12 @@ class PoolingCorr(Corr):
 
     def oracle(self, case, obs):
         sc = obs["scene"]
+        n_held = sum(1 for g in obs["gts"] for x in g if x in MC.TARGETS)
+        if sc["num_gt"] != n_held:
+            return f"scene MetricsScore.num_ground_truth = {sc['num_gt']} but the frame results hold {n_held} ground truths of the target labels"
+        for i, (g, n) in enumerate(zip(obs["gts"], obs["frame_num_gt"])):
+            if n != sum(1 for x in g if x in MC.TARGETS):
+                return f"frame {i}: MetricsScore.num_ground_truth = {n} but the frame holds {sum(1 for x in g if x in MC.TARGETS)} ground truths of the target labels"
         if sc["num_gt"] != sum(obs["frame_num_gt"]):
             return f"scene ground-truth count {sc['num_gt']} is not the sum {sum(obs['frame_num_gt'])} of the frame counts {obs['frame_num_gt']}"
         for mp in sc["maps"]:
@@ -401,6 +607,11 @@ class PoolingCorr(Corr):
     def nontrivial(self, case, obs):
         return len(case["frames"]) >= 2 and any(a is not None for mp in obs["scene"]["maps"] for a in mp["aps"])
 
+    def distribution(self, cases, obs):
+        return {"second_order": {"reversed": sum(1 for c in cases if c.get("order2") == list(reversed(range(len(c["frames"]))))),
+                                 "random_permutation": sum(1 for c in cases if c.get("order2") != list(reversed(range(len(c["frames"])))))},
+                "frames": sum(len(c["frames"]) for c in cases)}
+
     def describe(self, case, obs):
         return {"case": {"frame": case["frame"], "n_frames": len(case["frames"]), "crit": case["crit"], "distinct_confidences": case["distinct"]},
                 "observed": {"scene_maps": obs["scene"]["maps"][:2], "frame_num_gt": obs["frame_num_gt"]}}
@@ -409,6 +620,7 @@ class PoolingCorr(Corr):
 class C13(Prop):
     id = "C13"
     props_file = "Props/C13.v"
+    extra_props_files = ["Props/C13Concrete.v"]
     design_ref = "DESIGN.md section 4, C13"
     technique = "Rocq proof (refinement of a manager state machine to a history-independent spec by induction over call sequences; permutation/sorting lemmas for pooling); in-Coq replay of call histories against the real manager"
     level_text = ("Theorems (Props/C13.v, closed under the global context): for EVERY sequence of add_frame_result/get_scene_result calls the manager state "
@@ -418,12 +630,25 @@ class C13(Prop):
                   "are the bucket of the pool, a one-frame scene equals the frame score, pooled AP is invariant under permuting frames when confidences are "
                   "distinct (and not otherwise). Tie: random call histories (repeated/permuted frames, different critical filters, interleaved scene queries, "
                   "detection and tracking, ego and map frame) are run on a real manager; G/T/Sc are measured on fresh managers and the history is replayed "
-                  "in Coq; scene detection scores are recomputed by the AP model from the pooled object results.")
+                  "in Coq; scene detection scores are recomputed by the AP model from the pooled object results; classification2d and fp_validation "
+                  "managers are driven through the same histories; scene tracking / classification counters are checked to be the sums of the "
+                  "frame counters, and MetricsScore.num_ground_truth is compared with an independent count at frame and scene level.")
     level_note = ("Frame evaluation itself is abstract in this model (G, T, Sc are Section variables; their content is C01/C03/C04/C05/C10). Trusted: Coq "
                   "kernel+vm_compute; the harness' fingerprints (uuids of paired objects, pass/fail lists, all metric numbers, deep attribute dump of "
-                  "dataset objects); fresh-manager runs as the reference for G/T/Sc. Scene-level tracking scores are compared with fresh replays only.")
+                  "dataset objects, transform registries, raw data, reused configuration objects); fresh-manager runs as the reference for G/T/Sc. "
+                  "Scene-level tracking scores: additive counters against the sums of the frame counters, MOTA/MOTP against fresh replays.")
     rule = ("random datasets of 1-4 frames (0-7 GT each, k/8 lattice, random ego pose), 2 estimate lists per frame, 4 critical filters x 3 pass/fail thresholds, "
-            "3-10 calls incl. re-evaluation of the same frame and interleaved scene queries; non-trivial = some ground-truth frame evaluated more than once")
+            "3-10 calls incl. re-evaluation of the same frame and interleaved scene queries; non-trivial = some ground-truth frame evaluated more than once; "
+            "of every 9 histories 4 are detection, 3 tracking, 1 classification2d (ROI-less 2D objects paired by uuid, confidence-threshold filter "
+            "variants, ClassificationMetricsScore) and 1 fp_validation (half of the ground truths FP-labelled, no metrics: non-mutation and "
+            "history-independence clauses only); on the long-lived manager the frame is fetched with get_ground_truth_now_frame(t), ONE critical "
+            "filter / pass-fail configuration object per variant is reused across calls (fingerprinted before/after; fresh managers get fresh "
+            "objects), the dataset frames carry raw_data and their fingerprint includes the transform registry and raw_data, and map-frame "
+            "histories request a frame interpolated between two dataset frames and evaluate it on a throw-away manager in mid-history; counting "
+            "oracles without a reference run: frame num_ground_truth = critical ground truths of the target labels, scene tracking counters "
+            "(id switches, TP, FP per score and label) and scene classification counters (ground truths, results, TP, FP) = sums over the frame "
+            "results held; pooling: the second order is the reversed one or (3+ frames, every other case) a random permutation, "
+            "scene / frame num_ground_truth compared with the number of target-label ground truths the frame results hold")
     assumptions = ["frame evaluation abstracted (Section variables)", "fingerprints capture every observable of a frame result"]
     not_proved = ["the content of a single frame evaluation (other properties)", "scene-level CLEAR pooling is validated against fresh replays, its formula is C05",
                   "Python object aliasing beyond the dataset frames and estimate lists (runtime observation)"]
